@@ -192,13 +192,13 @@ Proof.
 Qed.
 
 (* the head of waitq leaves wait_for_cpr_responses() *)
-Lemma resume_I1 : forall s k x w,
+Lemma resume_I1 : forall s rq k x w,
   I1 s -> CI (ch s) -> waitq (ch s) = x :: w -> fdone (ch s) (s_prev x) = true ->
-  let r := resume (running (en s)) (ch s) k (out s) in
+  let r := resume (running (en s)) rq (ch s) k (out s) in
   otext (snd r) ++ wait_text (fst (fst r)) ++ concat (loopq (en s)) = concat (handed (px s)) /\
   forallb ev_ok (snd r) = true /\ brk_inv (running (en s)) (snd r) (fst (fst r)).
 Proof.
-  intros s k x w I C W F. destruct I as [Ia Io Ip It Iok Ib]. unfold resume. rewrite W. cbn zeta.
+  intros s rq k x w I C W F. destruct I as [Ia Io Ip It Iok Ib]. unfold resume. rewrite W. cbn zeta.
   assert (Hn : nth_error (waitq (ch s)) 0 = Some x) by (rewrite W; reflexivity).
   destruct (wake_head (ch s) 0 x C Hn F) as [_ [A _]].
   set (c0 := mkch (nextf (ch s)) (lastf (ch s)) (donef (ch s)) w (active (ch s)) (started (ch s))).
@@ -298,8 +298,8 @@ Proof.
     destruct (app (en s) && cpron (cp s) && negb (Nat.eqb (cprq (cp s)) 0) && _) eqn:G0; [|exact Ifull].
     destruct (cprwait (cp s) && _) eqn:G.
     + apply andb_true_iff in G. destruct G as [G _]. destruct (Wt G) as [x [w [W F]]].
-      match goal with |- context [resume ?r ?c ?k ?o] =>
-        pose proof (resume_I1 s k x w Ifull C W F) as H; destruct (resume r c k o) as [[c' k'] o'] end.
+      match goal with |- context [resume ?r ?q ?c ?k ?o] =>
+        pose proof (resume_I1 s q k x w Ifull C W F) as H; destruct (resume r q c k o) as [[c' k'] o'] end.
       cbn [fst snd] in H. destruct H as [T [Ok' B']].
       constructor; cbn [en ch out px]; try assumption.
       * rewrite otext_app, inval_text, app_nil_r. exact T.
@@ -313,12 +313,15 @@ Proof.
     destruct (negb (Nat.eqb (cprq (cp s)) 0) && _); [|exact Ifull].
     destruct (cprwait (cp s)) eqn:G.
     + destruct (Wt eq_refl) as [x [w [W F]]].
-      match goal with |- context [resume ?r ?c ?k ?o] =>
-        pose proof (resume_I1 s k x w Ifull C W F) as H; destruct (resume r c k o) as [[c' k'] o'] end.
+      match goal with |- context [resume ?r ?q ?c ?k ?o] =>
+        pose proof (resume_I1 s q k x w Ifull C W F) as H; destruct (resume r q c k o) as [[c' k'] o'] end.
       cbn [fst snd] in H. destruct H as [T [Ok' B']].
       constructor; cbn [en ch out px]; assumption.
     + constructor; cbn [en ch out px]; assumption.
   - (* Restore *)
+    constructor; cbn [en ch out px cp app running loopq lclosed lid]; assumption.
+  - (* AppDone: only is_done changes *)
+    destruct (app (en s) && running (en s) && negb (isdone (en s))); [|exact Ifull].
     constructor; cbn [en ch out px cp app running loopq lclosed lid]; assumption.
 Qed.
 
